@@ -320,6 +320,33 @@ def link_pattern():
 SITE_KEYS = ("mdBaseUrl", "projDocsPath", "summaryPath", "pageTreeRoot", "pagePathRoot")
 
 
+def inline_registry():
+    """Round 6: the order in which Python-Markdown applies the inline patterns of a `MetaMarkdown` built the way
+    `ford.main` builds it (with a project => `FordLinkExtension` is registered), read from the live registries:
+    names in order of application (descending priority) with their priorities; the names of the preprocessors
+    and block processors (fenced / indented code blocks are taken out before any inline pattern runs)."""
+    common.import_ford()
+    import ford._markdown as M
+
+    md = M.MetaMarkdown(".", project=object())
+
+    def dump(reg):
+        reg._sort()
+        return [(p.name, p.priority) for p in reg._priority]
+
+    inline = dump(md.inlinePatterns)
+    if not inline or any(not float(p).is_integer() or p < 0 for _, p in inline):
+        raise ValueError(f"inline pattern registry has an unexpected shape: {inline}")
+    procs = [type(md.inlinePatterns[n]).__name__ for n, _ in inline]
+    link_names = [n for n, c in zip([n for n, _ in inline], procs) if c == "FordLinkProcessor"]
+    if len(link_names) != 1:
+        raise ValueError(f"expected exactly one registered FordLinkProcessor, found {link_names}")
+    return {"inlinePatterns": [(n, int(p)) for n, p in inline],
+            "linkPatternName": link_names[0],
+            "preprocessors": [n for n, _ in dump(md.preprocessors)],
+            "blockProcessors": [n for n, _ in dump(md.parser.blockprocessors)]}
+
+
 def lstr(s):
     return '"' + s.replace("\\", "\\\\").replace('"', '\\"') + '"'
 
@@ -348,6 +375,13 @@ def translate():
     L.append("def linkNameSeps : List Char := [" + ", ".join(lchar(c) for c in t["linkNameSeps"]) + "]\n")
     L.append(f"def linkNameMany : Bool := {'true' if t['linkNameMany'] else 'false'}\n")
     L.append(f"def linkNameRecognised : Bool := {'true' if t['linkNameRecognised'] else 'false'}\n")
+    reg = inline_registry()
+    t.update(reg)
+    L.append("def inlinePatterns : List (String × Nat) := [\n  " +
+             ",\n  ".join(f"({lstr(n)}, {p})" for n, p in reg["inlinePatterns"]) + "]\n")
+    L.append(f"def linkPatternName : String := {lstr(reg['linkPatternName'])}\n")
+    for key in ("preprocessors", "blockProcessors"):
+        L.append(f"def {key} : List String := [" + ", ".join(lstr(a) for a in reg[key]) + "]\n")
     L.append("end Ford.Generated.C11\n")
     common.write_if_changed(common.LEAN / "FordModel" / "Generated" / "C11.lean", "\n".join(L))
     return t
